@@ -120,7 +120,9 @@ def loop_nodes(L):
     if L["gate"] == "ifelse":
         g.update({"k": "ifelse", "t": "b0", "f": stop, "expr": cond})
     else:
-        g.update({"k": "route", "targets": ["b0", stop], "fallback": None, "multi": False, "expr": f"'b0' if {cond} else '{stop}'"})
+        # stop_none: the route gate ends the loop by deciding None (no target, no fallback) instead of END
+        stop_expr = "None" if L.get("stop_none") and stop == "END" else f"'{stop}'"
+        g.update({"k": "route", "targets": ["b0", stop], "fallback": None, "multi": False, "expr": f"'b0' if {cond} else {stop_expr}"})
     nodes.append(g)
     if L["exit"] == "node" and L.get("exit_ext"):
         # an exit node that reads nothing of the loop: it is downstream of the body ONLY through the gate's control edge
